@@ -281,6 +281,156 @@ typedef std::list< std::pair< long const, long > > bm_list;
 typedef std::map< long, long > bm_map;
 typedef boost::container::flat_map< long, long > bm_flat;
 
+// ---------------------------------------------------------------- trace-conformance tie (hidden variants tie_striping / tie_refinable)
+//
+// Lean machine Algo/Striped (property C16): every atomic operation on the cell locks, m_Owner, m_access, m_nCapacity,
+// m_nBucketMask and the item counter is a step of the machine, plus one pseudo-event per bucket operation (the bucket
+// adapter below) and one at the end of a rehash (the resizing policy's reset(), which internal_resize calls last).
+//   locks           lk<i> (striping) / lk<gen>.<i> (refinable: one generation per lock array), named by the allocator
+//   buckets         std::list< kv > behind an adapter that reports `<op> b<index> <key> <outcome>`
+//   resizing policy rational_load_factor_resizing<0>( num, den ): resize when size * den > bucket_count * num
+
+static bool g_tie_refinable = false;
+static int g_tie_gen = 0;                       // lock arrays allocated so far
+static char* g_tie_tbl = nullptr;               // newest bucket table
+static size_t g_tie_tbl_n = 0, g_tie_tbl_elem = 1;
+static std::vector<void*> g_tie_garbage;        // nothing is freed before the case ends: no address (= name) is reused
+static std::function<std::string()> g_tie_layout;
+
+struct tie_bucket_tag {};
+
+template <class T, bool IsLock = std::is_same<T, hint_spin>::value, bool IsBucket = std::is_base_of<tie_bucket_tag, T>::value>
+struct tie_alloc_hook { static void on( T*, size_t ) {} };
+template <class T> struct tie_alloc_hook<T, true, false> {
+    static void on( T* p, size_t n )
+    {
+        int g = g_tie_gen++;
+        for ( size_t i = 0; i < n; ++i ) {
+            char nm[40];
+            if ( g_tie_refinable ) std::snprintf( nm, sizeof nm, "lk%d.%zu", g, i );
+            else std::snprintf( nm, sizeof nm, "lk%zu", i );
+            reg_name( &p[i].m_spin, sizeof( p[i].m_spin ), nm );
+        }
+    }
+};
+template <class T> struct tie_alloc_hook<T, false, true> {
+    static void on( T* p, size_t n ) { g_tie_tbl = reinterpret_cast<char*>( p ); g_tie_tbl_n = n; g_tie_tbl_elem = sizeof( T ); }
+};
+
+template <class T>
+struct tie_alloc {
+    typedef T value_type;
+    tie_alloc() {}
+    template <class U> tie_alloc( tie_alloc<U> const& ) {}
+    T* allocate( size_t n )
+    {
+        T* p = static_cast<T*>( ::operator new( n * sizeof( T )));
+        tie_alloc_hook<T>::on( p, n );
+        return p;
+    }
+    T* allocate( size_t n, void const* ) { return allocate( n ); }
+    void deallocate( T* p, size_t ) { g_tie_garbage.push_back( p ); }
+    template <class U> bool operator==( tie_alloc<U> const& ) const { return true; }
+    template <class U> bool operator!=( tie_alloc<U> const& ) const { return false; }
+};
+
+struct tie_bucket {};       // tag type: "std::list< kv > bucket that reports its operations"
+
+namespace cds { namespace intrusive { namespace striped_set {
+    template <typename... Options>
+    class adapt< tie_bucket, Options... >
+    {
+        typedef typename adapt< std::list< kv >, Options... >::type inner;
+    public:
+        class type : public inner, public tie_bucket_tag
+        {
+            std::string name() const
+            {
+                char const* me = reinterpret_cast<char const*>( this );
+                if ( g_tie_tbl && me >= g_tie_tbl && me < g_tie_tbl + g_tie_tbl_n * g_tie_tbl_elem )
+                    return "b" + std::to_string(( me - g_tie_tbl ) / g_tie_tbl_elem );
+                return "stale-bucket";      // a bucket of a table that has been replaced
+            }
+        public:
+            template <typename Q, typename Func>
+            bool insert( Q const& val, Func f )
+            {
+                pseudo_begin();
+                bool r = inner::insert( val, f );
+                pseudo_end( "insert", name(), std::to_string( key_of::k( val )), r ? "1" : "0" );
+                return r;
+            }
+            template <typename Q, typename Func>
+            std::pair<bool, bool> update( Q const& val, Func func, bool bAllowInsert )
+            {
+                pseudo_begin();
+                std::pair<bool, bool> r = inner::update( val, func, bAllowInsert );
+                pseudo_end( "update", name(), std::to_string( key_of::k( val )), std::string( r.first ? "1:" : "0:" ) + ( r.second ? "1" : "0" ));
+                return r;
+            }
+            template <typename Q, typename Func>
+            bool erase( Q const& key, Func f )
+            {
+                pseudo_begin();
+                long v = 0;
+                bool r = inner::erase( key, [&v, &f]( kv& item ) { v = item.val; f( item ); } );
+                pseudo_end( "erase", name(), std::to_string( key_of::k( key )), r ? "1:" + std::to_string( v ) : std::string( "0" ));
+                return r;
+            }
+            template <typename Q, typename Func>
+            bool find( Q& val, Func f )
+            {
+                pseudo_begin();
+                long v = 0;
+                bool r = inner::find( val, [&v, &f]( kv& item, Q& q ) { v = item.val; f( item, q ); } );
+                pseudo_end( "find", name(), std::to_string( key_of::k( val )), r ? "1:" + std::to_string( v ) : std::string( "0" ));
+                return r;
+            }
+        };
+    };
+}}}
+
+struct tie_lf : cc::striped_set::rational_load_factor_resizing<0> {
+    typedef cc::striped_set::rational_load_factor_resizing<0> base;
+    tie_lf( size_t num, size_t den ) : base( num, den ) {}
+    void reset()        // last statement of internal_resize
+    {
+        pseudo_begin();
+        std::string l = g_tie_layout ? g_tie_layout() : std::string( "?" );
+        size_t sp = l.find( ' ' );
+        pseudo_end( "rehash", "tbl", l.substr( 0, sp ), l.substr( sp + 1 ));
+    }
+};
+
+typedef cc::striped_set::striping< hint_spin, tie_alloc<int> > tie_striping_policy;
+typedef cc::striped_set::refinable< hint_spin, cds::backoff::yield, tie_alloc<int> > tie_refinable_policy;
+template <class Mutex>
+using TieSet = cc::StripedSet< tie_bucket, co::hash< striped_hash >, co::less< key_less >,
+    co::mutex_policy< Mutex >, co::resizing_policy< tie_lf >, co::allocator< tie_alloc<int> > >;
+
+// "<capacity> <layout>": layout = `<bucket>=<key>:<val>,…;…` over the non-empty buckets ("-" when the table is empty)
+template <class S>
+static std::string tie_layout_of( S& s )
+{
+    set_quiet( true );
+    size_t n = s.bucket_count();
+    std::string out;
+    for ( size_t i = 0; i < n; ++i ) {
+        auto& b = s.m_Buckets[i];
+        if ( b.begin() == b.end()) continue;
+        if ( !out.empty()) out += ';';
+        out += std::to_string( i ) + "=";
+        bool first = true;
+        for ( auto it = b.begin(); it != b.end(); ++it ) {
+            if ( !first ) out += ',';
+            first = false;
+            out += std::to_string( it->key ) + ":" + std::to_string( it->val );
+        }
+    }
+    set_quiet( false );
+    return std::to_string( n ) + " " + ( out.empty() ? std::string( "-" ) : out );
+}
+
 // ---------------------------------------------------------------- CuckooSet / CuckooMap
 
 typedef cc::cuckoo::striping< hint_rspin, 2 > ck_striping;
@@ -389,11 +539,63 @@ struct Fixture {
             else if ( v == "cmap_vector_refinable" ) put_stm( new LockedMap<CMap<ck_refinable, pvec, false, true>>( init, probeset, threshold ));
             else if ( v == "cmap_vector_striping_hash" ) put_stm( new LockedMap<CMap<ck_striping, pvec, true, false>>( init, probeset, threshold ));
         }
+        else if ( v.compare( 0, 4, "tie_" ) == 0 ) {
+            // hidden variants (not in variants()): trace-conformance tie with the Lean machine Algo/Striped
+            tie = true;
+            g_tie_refinable = ( v == "tie_refinable" );
+            g_tie_gen = 0; g_tie_tbl = nullptr; g_tie_tbl_n = 0;
+            static size_t const hmuls[] = { 1, 4, 5, 16 };
+            g_hmul = hmuls[( c.index / 2 ) % 4];
+            tie_num = 1; tie_den = ( c.index % 2 ) ? 16 : 8;
+            tie_lf lf( tie_num, tie_den );
+            if ( v == "tie_striping" ) tie_put( new LockedSet<TieSet<tie_striping_policy>>( size_t( 16 ), lf ));
+            else if ( v == "tie_refinable" ) {
+                auto* a = new LockedSet<TieSet<tie_refinable_policy>>( size_t( 16 ), lf );
+                tie_put( a );
+                reg_name( &a->s.m_MutexPolicy.m_Owner, sizeof( a->s.m_MutexPolicy.m_Owner ), "owner" );
+                reg_name( &a->s.m_MutexPolicy.m_access.m_spin, sizeof( a->s.m_MutexPolicy.m_access.m_spin ), "access" );
+                reg_name( &a->s.m_MutexPolicy.m_nCapacity, sizeof( a->s.m_MutexPolicy.m_nCapacity ), "lcap" );
+            }
+        }
         if ( !m ) { std::fprintf( stderr, "unknown variant %s\n", v.c_str()); std::exit( 2 ); }
+    }
+    ~Fixture()
+    {
+        if ( tie ) {
+            m.reset();
+            g_tie_layout = nullptr;
+            for ( void* p : g_tie_garbage ) ::operator delete( p );
+            g_tie_garbage.clear();
+        }
+    }
+    bool tie = false;
+    size_t tie_cap = 0, tie_num = 1, tie_den = 1;
+    template <class A> void tie_put( A* a )
+    {
+        put_st( a );
+        tie_cap = a->s.bucket_count();
+        reg_name( &a->s.m_nBucketMask, sizeof( a->s.m_nBucketMask ), "mask" );
+        reg_name( &a->s.m_ItemCounter, sizeof( a->s.m_ItemCounter ), "count" );
+        g_tie_layout = [a] { return tie_layout_of( a->s ); };
+    }
+    // configuration of the Lean machine: policy, initial capacity (= number of cell locks), resizing policy
+    // (resize when size * den > bucket_count * num), hash( key ) = key * hmul
+    std::string header_extra() const
+    {
+        if ( !tie ) return std::string();
+        return std::string( "policy=" ) + ( g_tie_refinable ? "refinable" : "striping" ) + " cap=" + std::to_string( tie_cap )
+            + " num=" + std::to_string( tie_num ) + " den=" + std::to_string( tie_den ) + " hmul=" + std::to_string( g_hmul );
     }
     std::string spec() const { return "map"; }
     std::vector<std::vector<Op>> program( Rng& r, int nthreads, int nops ) { return map_program( r, nthreads, nops, *m, gen ); }
-    void thread_begin( int ) { set_quiet( true ); cds::threading::Manager::attachThread(); set_quiet( false ); }
+    void thread_begin( int tid )
+    {
+        set_quiet( true ); cds::threading::Manager::attachThread(); set_quiet( false );
+        if ( tie ) {    // m_Owner holds ( thread id << 1 ) | 1
+            char nm[16]; std::snprintf( nm, sizeof nm, "own%d", tid );
+            reg_alias(( uint64_t( cds::OS::get_current_thread_id()) << 1 ) | 1, nm );
+        }
+    }
     void thread_end( int ) { set_quiet( true ); cds::threading::Manager::detachThread(); set_quiet( false ); }
     std::vector<long> exec( int, Op const& op ) { return map_exec( *m, op ); }
     void finish( std::ostream& out ) { if ( info ) out << "# " << info() << '\n'; }
